@@ -52,6 +52,8 @@ func c07Slot2(tag string) (resolve.RequirementVersion, bool) {
 		t.AddAttr(dep.MavenArtifactType, "war")
 	case 6:
 		t.AddAttr(dep.MavenClassifier, "tests")
+	case 7:
+		t.AddAttr(dep.MavenArtifactType, "jar") // the default type spelled out: the same artifact as without a type
 	}
 	return resolve.RequirementVersion{VersionKey: resolve.VersionKey{PackageKey: c07PK(c07Names2[target-1]), VersionType: resolve.Requirement,
 		Version: c07Req2(vParam(tag+"r"), tag, vParam(tag+"c"))}, Type: t}, true
